@@ -122,6 +122,9 @@ def gen_packet(rng, big=False):
         code = rng.randint(0, 8)
         if code != 8 and rng.random() < 0.3:
             return tftp.ERRORPacket(code)
+        if rng.random() < 0.15:
+            # long messages (an exception text quoting a deep path): beyond a default-size block, up to a large datagram
+            return tftp.ERRORPacket(code, (lambda n: rstr(rng, n, n))(rng.choice([500, 507, 508, 509, 511, 512, 513, 1400, 9000])))
         return tftp.ERRORPacket(code, rstr(rng, 0, 30))
     return tftp.OACKPacket(options())
 
@@ -188,7 +191,8 @@ def run(ctx, build):
     mser = R.batch('serialize', canon, chunk=16) if R else [None] * len(canon)
     # boundary values that must always be constructible
     for mk, args in ((tftp.DATAPacket, (65535, b'x')), (tftp.DATAPacket, (1, b'')), (tftp.ACKPacket, (0,)), (tftp.ACKPacket, (65535,)),
-                     (tftp.ERRORPacket, (8, '')), (tftp.ERRORPacket, (0, 'x'))):
+                     (tftp.ERRORPacket, (8, '')), (tftp.ERRORPacket, (0, 'x')), (tftp.ERRORPacket, (0, 'm' * 511)), (tftp.ERRORPacket, (1, 'n' * 512)),
+                     (tftp.ERRORPacket, (2, 'path/' * 300))):
         try:
             q = mk(*args)
             b = bytes(q)
